@@ -110,6 +110,9 @@ class Run:
                 for st in body:
                     if st[0] == 'bf':
                         t.add(self.sb.p(st[1]))
+                    elif st[0] == 'bfmany':
+                        for k in range(st[2]):
+                            t.add(self.sb.p('%s%03d' % (st[1], k)))
             self._targets = t
         return self._targets
 
@@ -211,6 +214,7 @@ class Run:
         it = Interp(self.sc, sb, 'real', versions, crash_at=crash_at,
                     file_comparison=self.fb.FileComparison, sched=sched)
         it.build_no = self.build_no
+        it.crash_end = bool(fault and fault.get('crash_end'))
         it.stmt_hook = self.opts.get('stmt_hook')
         if self.cfg.get('foreign_live') and self._pre is not None:
             it.stmt_hook = self.foreign_hook(self._pre, self._prev)
@@ -245,7 +249,6 @@ class Run:
             sim.phase = 'idle'
             if sched is not None:
                 # the owner's API call has returned; stragglers may go on
-                it.ret_seq['root'] = sched.seq
                 try:
                     sched.join_all()
                 except BaseException:
@@ -750,6 +753,22 @@ class Run:
             fired = real.it.crashed is not None
         else:
             fired = real.fault_fired is not None
+            if fault.get('crash_end') and \
+                    real.it.crashed is not None and \
+                    real.exc_obj is real.it.crashed:
+                # an internal OSError (caught by the program or absorbed by
+                # the library) followed by a failure of the root function:
+                # the build is rolled back, C02's post-conditions apply
+                key = 'crash-only' if not fired else '%s:%s+crash' % (
+                    real.fault_fired['call'], real.fault_fired['errno'])
+                self.stats['faults'][key] = \
+                    self.stats['faults'].get(key, 0) + 1
+                self.stats['rollbacks'] += 1
+                self.compare_tree(ctx, i, Tree(ctx['pre'], sb.base),
+                                  committed=False)
+                if sb.tmp_entries():
+                    raise V('temp-leak', {'entries': sb.tmp_entries()})
+                return True
         if not fired:
             self.fault_not_fired = True
             return False
@@ -819,6 +838,11 @@ class Run:
                 plan = [{'kind': 'oserror', 'index': k,
                          'errno': errnos[(k + rot) % len(errnos)]}
                         for k in ks]
+                if sc.get('crash_end'):
+                    # every second fault is followed by a failure of the
+                    # root function (rollback after a caught / absorbed error)
+                    plan = plan + [dict(f, crash_end=True)
+                                   for f in plan[::2]]
                 if sc.get('torn'):
                     plan.append({'kind': 'torn', 'frac': 0.5})
                     plan.append({'kind': 'torn', 'frac': 0.0})
@@ -836,7 +860,9 @@ class Run:
                 continue
             out = self.last_outcome
             if out.kind == 'exc' and (
-                    f['kind'] == 'crash' or _chain_injected(out.exc_obj)):
+                    f['kind'] == 'crash' or _chain_injected(out.exc_obj) or
+                    (f.get('crash_end') and type(out.exc_obj).__name__ ==
+                     'CrashError')):
                 # rolled back: the twin continuation must match the baseline
                 # (same simulated time as the baseline continuation)
                 self.sb.clock.now = s0['clock']
